@@ -207,6 +207,34 @@ def compressed_limit_stims(seed, tier):
                           'req': {'meta': [], 'msgs': msgs(nreq)},
                           'script': {'init_meta': [], 'msgs': msgs(nresp), 'end': {'ok': True}, 'fail_before': False, 'no_compress': False}}
                     out.append(st)
+    # asymmetric limits that are never hit: only one direction of one side is limited and the large messages travel the other way
+    # (a limit must not leak into the other direction or onto the other side - also not through a cloned client)
+    for shape in ('unary', 'cstream', 'sstream', 'bidi'):
+        for side, key in (('client', 'max_enc'), ('client', 'max_dec'), ('server', 'max_enc'), ('server', 'max_dec')):
+            for clone in (False, True):
+                big_is_resp = (side, key) in (('client', 'max_enc'), ('server', 'max_dec'))
+                def msgs(k, big):
+                    return [[rnd.randrange(256)] * (rnd.choice([100, 200]) if big else rnd.choice([0, 5, 64])) for _ in range(k)]
+                nreq = 1 if shape in ('unary', 'sstream') else rnd.randint(1, 3)
+                nresp = 1 if shape in ('unary', 'cstream') else rnd.randint(1, 3)
+                h2 = rnd.random() < 0.4
+                st = {'mode': 'client', 'class': f'asymmetric_limit_{side}_{key}', 'transport': 'h2' if h2 else 'inproc',
+                      'shim': {'cap': 65536, 'rq': 65536, 'wq': 65536, 'pend': 0}, 'shape': shape,
+                      'server': {'send': [], 'accept': [], 'max_dec': -1, 'max_enc': -1}, 'client': {'send': '', 'accept': [], 'max_dec': -1, 'max_enc': -1, 'clone': clone},
+                      'req': {'meta': [], 'msgs': msgs(nreq, not big_is_resp)},
+                      'script': {'init_meta': [], 'msgs': msgs(nresp, big_is_resp), 'end': {'ok': True}, 'fail_before': False, 'no_compress': False}}
+                st[side][key] = 64
+                out.append(st)
+    # limits of 2^32 and more (-2, -3, -4 in the stimulus) are never hit
+    for i, shape in enumerate(('unary', 'cstream', 'sstream', 'bidi')):
+        for side, key in (('client', 'max_dec'), ('server', 'max_dec'), ('client', 'max_enc'), ('server', 'max_enc')):
+            st = {'mode': 'client', 'class': f'huge_limit_{side}_{key}', 'transport': 'inproc',
+                  'shim': {'cap': 65536, 'rq': 65536, 'wq': 65536, 'pend': 0}, 'shape': shape,
+                  'server': {'send': [], 'accept': [], 'max_dec': -1, 'max_enc': -1}, 'client': {'send': '', 'accept': [], 'max_dec': -1, 'max_enc': -1, 'clone': i % 2 == 1},
+                  'req': {'meta': [], 'msgs': [[7] * 17] if shape in ('unary', 'sstream') else [[7] * 17, [8] * 5]},
+                  'script': {'init_meta': [], 'msgs': [[9] * 17] if shape in ('unary', 'cstream') else [[9] * 17, [], [1] * 40], 'end': {'ok': True}, 'fail_before': False, 'no_compress': False}}
+            st[side][key] = (-2, -3, -4)[(i + len(out)) % 3]
+            out.append(st)
     return out
 
 
